@@ -1,12 +1,12 @@
 package props
 
 import (
-	"regexp"
 	"fmt"
 	"go/ast"
 	"go/constant"
 	"go/token"
 	"go/types"
+	"regexp"
 	"sort"
 	"strings"
 
@@ -61,8 +61,16 @@ func stripSpaces(s string) string {
 	if linkCanon != nil {
 		s = linkCanon.Replace(s)
 	}
+	if headerInline != nil {
+		s = headerInline.ReplaceAllString(s, "$1")
+	}
 	return s
 }
+
+// headerInline: while a collection whose ring header is stored inline (a struct-valued field instead
+// of a pointer to a separately allocated entry) is judged, `&x.header` reads as `x.header`: the same
+// entry either way. Set by setLinkCanon, nil otherwise.
+var headerInline *regexp.Regexp
 
 // linkCanon: while one collection type is judged, an order ring kept in a small struct of the entry
 // (e.link.next / e.link.prev) reads as the flat field pair (e.link_next / e.link_prev) the rules are
@@ -73,12 +81,20 @@ var linkCanon *strings.Replacer
 // the entry whose struct holds a "next" and a "prev" pointer to the entry type is the order ring.
 func setLinkCanon(t *types.Named) {
 	linkCanon = nil
+	headerInline = nil
 	if t == nil {
 		return
 	}
 	st, ok := t.Underlying().(*types.Struct)
 	if !ok {
 		return
+	}
+	for i := 0; i < st.NumFields(); i++ {
+		if _, isStruct := st.Field(i).Type().Underlying().(*types.Struct); isStruct && st.Field(i).Name() == "header" {
+			if _, isNamed := st.Field(i).Type().(*types.Named); isNamed {
+				headerInline = regexp.MustCompile(`&((?:[A-Za-z_]\w*\.)*header)\b`)
+			}
+		}
 	}
 	var entry *types.Named
 	for i := 0; i < st.NumFields(); i++ {
@@ -140,16 +156,16 @@ func setLinkCanon(t *types.Named) {
 
 // hmapClassifier abstracts statements of one method into events.
 type hmapClassifier struct {
-	ptrAlias map[types.Object]ast.Expr // locals abbreviating a pointer field of the receiver
-	depth int // hashExprKind: how many caller hops were followed
+	ptrAlias    map[types.Object]ast.Expr         // locals abbreviating a pointer field of the receiver
+	depth       int                               // hashExprKind: how many caller hops were followed
 	resolveCall func(call *ast.CallExpr) ast.Expr // value of a same-receiver selector helper under the mode being specialised
-	fi   *core.FuncInfo
-	info *types.Info
-	recv string
-	fresh map[types.Object]ast.Expr // local var -> fresh entry expression
-	defPos map[types.Object]token.Pos
-	bodies []*ast.BlockStmt // the method body and the bodies of helpers inlined while enumerating it
-	p      *core.Program    // for resolving the hash helper (optional)
+	fi          *core.FuncInfo
+	info        *types.Info
+	recv        string
+	fresh       map[types.Object]ast.Expr // local var -> fresh entry expression
+	defPos      map[types.Object]token.Pos
+	bodies      []*ast.BlockStmt // the method body and the bodies of helpers inlined while enumerating it
+	p           *core.Program    // for resolving the hash helper (optional)
 }
 
 // hmapProg: the program under analysis (set by the rule entry points; one run analyses one program).
@@ -1365,12 +1381,12 @@ func (h *hmapType) enumerateWith(fi *core.FuncInfo, cl *hmapClassifier, mode str
 		return body
 	}
 	cfg := paths.Config{
-		Info:     info,
-		Inline:   func(call *ast.CallExpr) *ast.BlockStmt { return inlineBody(call) },
-		Expand:   exp.Expand,
+		Info:      info,
+		Inline:    func(call *ast.CallExpr) *ast.BlockStmt { return inlineBody(call) },
+		Expand:    exp.Expand,
 		MaxInline: 3,
-		Classify: cl.classify,
-		Cond:     cl.condEvent,
+		Classify:  cl.classify,
+		Cond:      cl.condEvent,
 		Invariant: func(cj ast.Expr, loop *ast.ForStmt) bool { return h.fieldsInvariant(fi, cj, loop) },
 		Fold: func(c ast.Expr) (bool, bool) {
 			if mode != "" || len(preset) > 0 {
